@@ -1070,6 +1070,56 @@ def len_cmp(so):
 
 # ---- C09 ----------------------------------------------------------------------------------------------------------------------------------------
 
+def constructor_rule(chk, P, prefix):
+    """bounded(): the channel starts open and idle with an empty pending batch, the sender's capacity is the argument as given, both
+    halves share one state, and every back-off is configured with min <= max (so it is non-decreasing up to its bound)."""
+    def f():
+        b = P.body("emit_batcher::bounded")
+        aggs = {}
+        for bb, j, st in b.statements(normal_only=True):
+            rv = st.get("rv") if st["k"] == "assign" else None
+            if rv and rv["k"] == "agg" and rv.get("ak") == "adt" and (rv.get("adt") or "").startswith("emit_batcher::"):
+                aggs.setdefault(rv["adt"].rsplit("::", 1)[-1], []).append(dict(zip(rv.get("fields") or [], [b.origin(o) for o in rv["ops"]])))
+        for need in ("State", "Sender", "Receiver", "Shared"):
+            if len(aggs.get(need, ())) != 1:
+                return False, "bounded() builds %d %s values (expected one)" % (len(aggs.get(need, ())), need), [], b.span
+        stt, snd, rcv = aggs["State"][0], aggs["Sender"][0], aggs["Receiver"][0]
+        if mir.o_const_value(stt["is_open"]) is not True:
+            return False, "a new channel starts with is_open = %s: every send on it is dropped as if the receiver had gone" % o_str(stt["is_open"]), [], b.span
+        if mir.o_const_value(stt["is_in_batch"]) is not False:
+            return False, "a new channel starts with is_in_batch = %s: a flush on the idle channel waits for a batch that is not being processed" % o_str(stt["is_in_batch"]), [], b.span
+        if not (stt["next_batch"][0] == "call" and stt["next_batch"][1].callee.get("name") in ("new", "default")):
+            return False, "a new channel's pending batch is %s" % o_str(stt["next_batch"]), [], b.span
+        if not mir.o_is_param(snd["max_capacity"], idx=1):
+            return False, "the sender's capacity is %s, not the configured capacity" % o_str(snd["max_capacity"]), [], b.span
+        r1, r2 = common.roots(snd["shared"]), common.roots(rcv["shared"])
+        arc = [("callsite", c.bb) for c in b.calls(normal_only=True) if c.callee.get("name") == "new" and "Arc" in (c.callee.get("path") or "")]
+        if len(arc) != 1 or arc[0] not in r1 or arc[0] not in r2:
+            return False, "sender and receiver do not share one state (each must hold a clone of the same Arc)", [], b.span
+
+        def dur(o):
+            if o[0] == "call" and o[1].args:
+                k = mir.o_const_value(b.origin(o[1].args[0]))
+                unit = {"from_secs": 10 ** 9, "from_millis": 10 ** 6, "from_micros": 10 ** 3, "from_nanos": 1}.get(o[1].callee.get("name"))
+                if unit and isinstance(k, int):
+                    return k * unit
+            return None
+        nd = 0
+        for c in b.calls(normal_only=True):
+            if (c.callee.get("path") or "").endswith("Delay::new") and len(c.args) == 2:
+                lo, hi = dur(b.origin(c.args[0])), dur(b.origin(c.args[1]))
+                nd += 1
+                if lo is None or hi is None:
+                    continue
+                if lo > hi or lo == 0:
+                    return False, ("a back-off is configured with min %d ns and max %d ns at %s: it must start positive and below its bound "
+                                   "(min <= max) to be non-decreasing" % (lo, hi, c.loc)), [], c.loc
+        if nd < 2:
+            raise mir.AnchorMissing("the idle and retry Delay::new calls in bounded()")
+        return True, "", [b.span]
+    chk.ob("%s.R0:bounded" % prefix, "a new channel is open, idle, empty, shares one state between its halves, and its back-offs have min <= max", f)
+
+
 def watcher_lists(chk, P, prefix):
     """Watchers keeps one list per event: push_on_X appends the callback to the list notify_on_X empties (take: the batch was handed to
     the receiver; flush: its last attempt is over), each callback taken out of the list before it runs (so it runs once), and each runs
